@@ -57,20 +57,33 @@ ASSUME /\ InCIDR(A4(10, 1, 0, 0), Ten16) /\ InCIDR(A4(10, 1, 255, 255), Ten16)
 
 SeqsUpTo(U, n) == UNION {[1..k -> U] : k \in 0..n}
 
+\* lists of three with the unparsable entry in the MIDDLE (the entry after it must still count, the one
+\* before it too); the other list is fixed
+CtlGood == CtlRanges \ {BadEntry}
+Mid3 == {<<g1, BadEntry, g2>> : g1 \in CtlGood, g2 \in CtlGood}
+
 InitCtl ==
     \E n \in CtlNets, a \in CtlAddrs :
-    \E al \in (IF n \in SafeNets THEN SeqsUpTo(CtlRanges, MaxAllow) ELSE {<<Any4, Any6>>}),
-       dn \in (IF n \in SafeNets THEN SeqsUpTo(CtlRanges, MaxDeny) ELSE {<<>>, <<Ten16>>}) :
-       /\ Configured(al, dn)            \* the control function only exists when something is configured
-       /\ allow = al /\ deny = dn /\ addr = a /\ net = n /\ reach = "control"
+    \E pair \in (IF n \in SafeNets
+                 THEN (SeqsUpTo(CtlRanges, MaxAllow) \X SeqsUpTo(CtlRanges, MaxDeny))
+                      \cup ({<<Any4, Any6>>, <<>>} \X Mid3) \cup (Mid3 \X {<<>>, <<Ten16>>})
+                 ELSE {<<Any4, Any6>>} \X {<<>>, <<Ten16>>}) :
+       /\ Configured(pair[1], pair[2])  \* the control function only exists when something is configured
+       /\ allow = pair[1] /\ deny = pair[2] /\ addr = a /\ net = n /\ reach = "control" /\ extra = <<>>
+
+\* a second A record for the same name: the next address in a fixed cycle (so that in-range and out-of-range mix)
+NextAddr(a) == CASE a = A4(127, 0, 255, 255) -> A4(127, 1, 0, 0) [] a = A4(127, 1, 0, 0) -> A4(127, 2, 0, 0)
+                 [] a = A4(127, 1, 2, 3) -> A4(127, 0, 255, 255) [] a = A4(127, 1, 255, 255) -> A4(127, 1, 2, 3)
+                 [] OTHER -> A4(127, 1, 255, 255)
 
 InitE2e ==
     \E a \in E2eAddrs, r \in Reaches :
     \E al \in SeqsUpTo(E2eRanges, MaxAllow), dn \in SeqsUpTo(E2eRanges, MaxDeny) :
+    \E x \in (IF r = "literal" THEN {<<>>} ELSE {<<>>, <<NextAddr(a)>>}) :
        /\ (r = "dnscache" => Configured(al, dn))   \* the property is silent about a DNS cache without lists
-       /\ allow = al /\ deny = dn /\ addr = a /\ net = "tcp4" /\ reach = r
+       /\ allow = al /\ deny = dn /\ addr = a /\ net = "tcp4" /\ reach = r /\ extra = x
 
-Init == /\ phase = "start" /\ verdict = "none"
+Init == /\ phase = "start" /\ verdict = "none" /\ xverdict = <<>>
         /\ IF Family = "e2e" THEN InitE2e ELSE InitCtl
 Spec == Init /\ [][Next]_vars
 
@@ -80,5 +93,6 @@ EncAddr(a) == <<a.fam, IF a.mapped THEN 1 ELSE 0>> \o a.oct
 
 Emit == Done =>
     PrintT(ToJson([fam |-> Family, allow |-> EncList(allow), deny |-> EncList(deny), addr |-> EncAddr(addr),
-                   net |-> net, reach |-> reach, verdict |-> verdict]))
+                   net |-> net, reach |-> reach, verdict |-> verdict,
+                   extra |-> [i \in DOMAIN extra |-> EncAddr(extra[i])], xverdict |-> xverdict]))
 =============================================================================
